@@ -131,7 +131,7 @@ func genCase(maxSteps int) func(t *rapid.T) Case {
 		}
 		steps := rapid.IntRange(2, maxSteps).Draw(t, "steps")
 		for i := 0; i < steps; i++ {
-			a := Action{Kind: rapid.SampledFrom([]string{"add", "render_file", "render_file", "render_stmt", "render_stmt", "render_group", "hint_name", "hint_alias", "hint_alias", "anon", "prefix", "preamble"}).Draw(t, "action")}
+			a := Action{Kind: rapid.SampledFrom([]string{"add", "render_file", "render_file", "render_stmt", "render_stmt", "render_group", "hint_name", "hint_alias", "hint_alias", "anon", "prefix", "preamble", "canonical"}).Draw(t, "action")}
 			switch a.Kind {
 			case "add", "render_stmt", "render_group":
 				a.I = rapid.IntRange(0, 40).Draw(t, "idx")
@@ -146,6 +146,9 @@ func genCase(maxSteps int) func(t *rapid.T) Case {
 				a.Name = rapid.SampledFrom([]string{"d", "e", "foo", "rand", ".", ".", "d1", "al"}).Draw(t, "halias")
 			case "anon":
 				a.Path = rapid.SampledFrom(paths).Draw(t, "apath")
+			case "canonical":
+				// the import-path annotation of the package clause: often a path the body refers to
+				a.Path = rapid.SampledFrom(append([]string{"", "example.com/canonical"}, paths...)).Draw(t, "cpath")
 			case "prefix":
 				a.Name = rapid.SampledFrom([]string{"", "pkg", "p2"}).Draw(t, "prefix")
 			case "preamble":
@@ -337,6 +340,9 @@ func check(c Case) error {
 			anon[a.Path] = true
 		case "prefix":
 			f.PackagePrefix = a.Name
+		case "canonical":
+			// an annotation on the package clause; it names no import and makes no path local
+			f.CanonicalPath = a.Path
 		case "render_stmt":
 			i := a.I % len(stmts)
 			what := fmt.Sprintf("Statement %d RenderWithFile", i)
